@@ -1,5 +1,5 @@
 """C16 -- size-class and address arithmetic (DESIGN.md section 3, C16)."""
-import os, collections
+import os, re, collections
 import vlib
 from vlib import log
 
@@ -46,8 +46,42 @@ def oracle(tlines, res):
     return bad, n
 
 
+# F record name -> C function (the records on which the generated functions are compared, ocaml/mode_gen.ml)
+F2C = {"bin": "mi_bin", "good_size": "mi_good_size", "wsize": "_mi_wsize_from_size", "align_up": "_mi_align_up",
+       "align_down": "_mi_align_down", "divide_up": "_mi_divide_up", "clz": "mi_clz", "ctz": "mi_ctz", "bsr": "mi_bsr",
+       "is_pow2": "_mi_is_power_of_two", "mul_overflow": "mi_mul_overflow", "count_size_overflow": "mi_count_size_overflow",
+       "bin_size": "_mi_bin_size", "os_good_alloc_size": "_mi_os_good_alloc_size", "slice_bin": "mi_slice_bin8",
+       "fast_divisor": "mi_get_fast_divisor", "fast_divide": "mi_fast_divide", "ptr_segment": "_mi_ptr_segment",
+       "unalign": "_mi_page_ptr_unalign"}
+C2F = {v: k for k, v in F2C.items()}
+
+
+def function_of_statement(stmt, translated):
+    """the C function a lemma of Proofs/GenEquiv.v / GenSweeps*.v / Gen/FuncsCheck.v is about (longest name match)"""
+    best = None
+    for fn in translated:
+        key = re.sub(r"\W", "_", fn)
+        short = re.sub(r"^_?mi_", "", fn)
+        if stmt and (("c_" + key) in stmt or ("fold_" + key) in stmt or ("c_" + short) in stmt or ("gen_" + short) in stmt):
+            if best is None or len(fn) > len(best):
+                best = fn
+    return best
+
+
 def run(res, a):
-    proofs_ok = vlib.proof_stage(res, "C16")
+    # Gen/Funcs.v is regenerated from the current C source by proof_stage -> vlib.gen(); C16gen.v carries the
+    # equivalence with the hand model and the C16 laws restated on the generated functions
+    proofs_ok = vlib.proof_stage(res, "C16", files=["C16", "C16gen"])
+    rep = None
+    try:
+        import c2gallina
+        rep = c2gallina.load_report()
+    except ImportError:
+        pass
+    refused = dict(rep.get("refused", {})) if rep else {}
+    translated = list(rep.get("translated", [])) if rep else []
+    if rep is None:
+        res.violation("translator:report", "tools/c2gallina.py left no report: Gen/Funcs.v was not regenerated", witness=None)
     # correspondence (F) + implementation oracle (T)
     exe = os.path.join(vlib.BUILD, "f_arith_%s" % a.pid)
     ok, txt, cmd = vlib.cc(os.path.join(vlib.HARN, "f_arith.c"), exe)
@@ -79,6 +113,72 @@ def run(res, a):
             res.violation("corr:" + mism[0].split()[2], "model/implementation disagreement (%d records), e.g. %s" % (len(mism), mism[0]), witness=None)
         elif mism:
             log("[corr] %d model/implementation disagreements, e.g. %s" % (len(mism), mism[0]))
+    # ---- the generated functions (tools/c2gallina.py) on the same records: validates the translator itself ----
+    gl = [l for l in lines if l.startswith("G ")]
+    gmism, gub, grefused, gdone = [], [], {}, 0
+    if okb:
+        rc, gout = vlib.model_replay("G", "\n".join(fl + gl) + "\n")
+        gmism = [l for l in gout.splitlines() if l.startswith("MISMATCH")]
+        gub = [l for l in gout.splitlines() if l.startswith("UB ")]
+        for l in gout.splitlines():
+            if l.startswith("REFUSED"):
+                grefused[l.split()[1]] = int(l.split()[2])
+        done = [l for l in gout.splitlines() if l.startswith("DONE")]
+        if rc != 0 or not done:
+            res.violation("gen-run", "replay of the generated functions failed: " + gout[-800:])
+        else:
+            gdone = int(done[0].split()[1])
+        if gmism:
+            # the Gallina text generated from the C source does not compute what the compiled C function computes:
+            # a defect of the translator / of Model/CSem.v (or clang and gcc read the source differently)
+            res.violation("translator-validation:" + gmism[0].split()[2],
+                          "the function generated by tools/c2gallina.py disagrees with the compiled C function (%d records), e.g. %s"
+                          % (len(gmism), gmism[0]), witness=None)
+        if gub:
+            res.violation("undefined-behaviour:" + gub[0].split()[2],
+                          "the harness ran the real function on an input where the generated model meets an undefined C operation "
+                          "(c_<fn>_ok false; %d records), e.g. %s" % (len(gub), gub[0]), witness=gub[0])
+    # which hand-model mismatches (mode F) / oracle failures concern which C function
+    def failing_input_for(fn):
+        short = C2F.get(fn)
+        for l in mism:
+            if short and l.split()[2] == short:
+                return "real C function vs proved model: " + l
+        for key, text, wit in bad:
+            if short in ("bin", "good_size", "bin_size", "wsize") and key in ("bin_size_ge", "fragmentation", "good_size_eq", "good_size_ge", "good_size_idem", "bin_monotone"):
+                return wit + " : " + text
+            if short in ("fast_divisor", "fast_divide") and key == "fast_divide":
+                return wit + " : " + text
+            if short == "unalign" and key == "unalign":
+                return wit + " : " + text
+        return None
+    # (a) a function the translator refuses: the theorems about c_<fn> are no longer about the code
+    for fn, why in sorted(refused.items()):
+        res.violation("translator:" + fn, "translator: %s no longer translatable (%s); the theorems of Properties/C16gen.v about c_%s "
+                      "cannot be re-checked against the current source" % (fn, why, fn), witness=failing_input_for(fn))
+    # (b) a proof about a generated function broke: name the function and attach a failing input when the
+    #     differential harness has one (the real function differs from the model the theorems were proved for)
+    fs = getattr(res, "failed_statement", None)
+    if (not proofs_ok) and fs and (fs[0].startswith("Proofs/Gen") or fs[0].startswith("Gen/Funcs") or fs[0] == "Properties/C16gen.v"):
+        vfile, stmt, emsg = fs
+        fn = function_of_statement(stmt or "", translated + list(refused))
+        wit = failing_input_for(fn) if fn else None
+        if wit is None and mism:
+            wit = "real C function vs proved model: " + mism[0]
+        key = "proof:%s:%s" % (vfile, stmt)
+        old = [v for v in res.violations if v[0] == key]
+        if old and wit is not None:
+            res.violations = [v for v in res.violations if v[0] != key]
+            res.violation(key, "%s -- concerns the C function `%s` as translated from the current source (Gen/Funcs.v); "
+                          "the differential harness shows the changed behaviour" % (old[0][3], fn or "?"), witness=wit)
+        elif old:
+            log("[c2g] broken lemma %s concerns the C function `%s`; the differential harness found no input on which the "
+                "real function differs from the model (behaviour-preserving rewrite, or a gap of the harness)" % (stmt, fn or "?"))
+    res.cov["c2g"] = {"translated": translated, "refused": refused, "records_replayed_on_generated": gdone,
+                      "mismatches_generated_vs_code": len(gmism), "ub_inputs": len(gub),
+                      "records_of_untranslated_functions": grefused}
+    res.cov["evaluations"] += gdone
+    res.cov["traces_validated_against_impl"] += gdone
     # the clause "mi_good_size(n) equals the usable size of mi_malloc(n)" also on dirty heaps / arbitrary histories
     try:
         import apitrace
@@ -89,7 +189,8 @@ def run(res, a):
     fcount = collections.Counter(l.split()[1] for l in fl)
     res.cov["evaluations"] += len(fl) + len(tl)
     res.cov["distinct_nontrivial"] += len(set(fl)) + len(set(tl))
-    res.cov["rule"] = ("F records: real function results compared with the extracted Coq model (exhaustive for sizes 0..2*MI_MEDIUM_OBJ_SIZE_MAX, "
+    res.cov["rule"] = ("G replay: the same F records (+ G records) evaluated by the functions GENERATED from the C source (Gen/Funcs.v); "
+                       "F records: real function results compared with the extracted Coq model (exhaustive for sizes 0..2*MI_MEDIUM_OBJ_SIZE_MAX, "
                        "all bins, all slice counts; boundary + PRNG values up to 2^64); T records: property oracle on the implementation "
                        "(block >= request, monotone, fragmentation, good_size, exact quotient, unalign/page lookup on real blocks of every class). "
                        "distinct = distinct record lines")
@@ -98,4 +199,5 @@ def run(res, a):
     res.cov.setdefault("input_distribution", {}).update({"F": dict(fcount), "T": dict(tcount)})
     res.cov["exhaustive"] = False
     res.add_samples([fl[0], fl[len(fl) // 2], fl[-1], tl[0], tl[len(tl) // 2], tl[-1]])
-    res.assumptions += ["the 64-bit Linux release configuration (MI_ALIGN2W, MI_PADDING=0)", "gcc builtins clz/ctz/umull_overflow behave as modelled (checked by the F records)"]
+    res.assumptions += ["the 64-bit Linux release configuration (MI_ALIGN2W, MI_PADDING=0)", "gcc builtins clz/ctz/umull_overflow behave as modelled (checked by the F records)",
+                        "tools/c2gallina.py + Model/CSem.v give the C semantics of the translated functions (validated per run by the G replay against the gcc-compiled functions; NOTES-c2g.md)"]
